@@ -23,7 +23,7 @@ class C07(Prop):
     level = "fault_enumeration"
     title = "Evaluation is demand-driven and consumes lazily supplied domains only as needed"
     campaigns = {"quick": [("sampled", 16000, 60), ("enumerated", 1500, 60), ("known:falsy_operand", 3000, 40)],
-                 "thorough": [("sampled", 300000, 1200), ("enumerated", 40000, 1200),
+                 "thorough": [("sampled", 1200000, 1500), ("enumerated", 80000, 1500),
                               ("known:falsy_operand", 60000, 400)]}
     chunk = 50
     rule = ("single-variable `an` queries (let(T, stream) / T(From(stream)) / T(From(stream), f=v), mixed-type streams, "
